@@ -300,6 +300,15 @@ class Tree:
                 if s["k"] == "assign" and s["place"]["local"] == 0 and not s["place"]["proj"]:
                     o = fn._origin_of_def(s, 0)
                     if isinstance(o, tuple) and o[0] == "aggr" and o[2] == "Err" and re.search(variant_pat, fmt(o)): marks.add(b["i"])
+        # the same Err built in a temporary that then becomes the result (`return Err(..)` inside an inlined helper, handed on by `?`): every
+        # path from the construction to the return defines _0 (by from_residual / a move) without building another result in between
+        ret_defs = {(bb, k) for bb, k, s_ in fn.defs().get(0, [])}
+        for b in fn.blocks:
+            if b["i"] not in fn.reach: continue
+            for k, s in enumerate(b["stmts"]):
+                if s["k"] == "assign" and s["place"]["local"] != 0 and not s["place"]["proj"] and s["rv"]["k"] == "aggr" and s["rv"].get("vname") == "Err" and (s["rv"].get("path") or "").endswith("Result"):
+                    o = fn._origin_of_def(s, 0)
+                    if re.search(variant_pat, fmt(o)) and ret_defs and must_pass(fn, (b["i"], k), ret_defs)[0]: marks.add(b["i"])
         if not marks: return False
         seen, st = set(), [edge[1]]
         while st:
@@ -408,6 +417,34 @@ def must_pass(fn, start, targets, stops=None, avoid_edges=()):
         if x in fn.returns: return False, x
         st.extend((x, s) for s in fn.succ[x] if (x, s) not in avoid_edges)
     return True, None
+
+
+def must_fact(fn, gen_points=(), gen_edges=(), kill_points=()):
+    """forward must-dataflow of one boolean fact over the CFG of fn: the fact is established at the program points `gen_points` [(bb, idx)] and on
+    the CFG edges `gen_edges` [(a, b)], destroyed at `kill_points`; at a join it holds only if it holds on every incoming edge. Returns a
+    function holds(bb, idx) = the fact holds just before statement idx of block bb. (Dominance by one establishing site is the special case
+    of a single generator; this also covers `match x { Some(e) => e, None => insert(..) }` followed by a use after the arms merge.)"""
+    gp, kp = {}, {}
+    for b, i_ in gen_points: gp.setdefault(b, []).append(i_)
+    for b, i_ in kill_points: kp.setdefault(b, []).append(i_)
+    ge = set(gen_edges)
+    def transfer(b, v, upto=None):
+        ev = sorted([(i_, 1) for i_ in gp.get(b, [])] + [(i_, 0) for i_ in kp.get(b, [])])
+        for i_, g_ in ev:
+            if upto is not None and i_ >= upto: break
+            v = bool(g_)
+        return v
+    reach = sorted(fn.reach)
+    IN = {b: True for b in reach}; IN[0] = False
+    changed = True
+    while changed:
+        changed = False
+        for b in reach:
+            if b == 0: continue
+            ps = [p_ for p_ in fn.pred[b] if p_ in fn.reach]
+            v = all(((p_, b) in ge) or transfer(p_, IN[p_]) for p_ in ps) if ps else False
+            if v != IN[b]: IN[b] = v; changed = True
+    return lambda bb, idx=0: transfer(bb, IN.get(bb, False), upto=idx)
 
 
 def natural_loops(fn):
